@@ -141,6 +141,16 @@ class Sdk:
         self.py_class: Dict[str, Any] = {}
         self.meta_of: Dict[Any, str] = {}
         self.py_enum: Dict[str, Any] = {}
+        self.tree: Any = None
+        self.recorders: Any = None
+        self._props: Dict[str, List[Any]] = {}
+
+    def props(self, cls: str) -> List[Any]:
+        """``mm.all_props`` (cached): ``[(Prop, owner)]``"""
+        r = self._props.get(cls)
+        if r is None:
+            r = self._props[cls] = mm.all_props(self.mm, cls)
+        return r
 
     def snippets(self) -> Dict[str, str]:
         """``Types/<cls>/<method>.py`` for every ``X_or_default`` method: the canonical implementation."""
@@ -217,19 +227,27 @@ class Sdk:
         return self.module is not None
 
     # ---- naming (the project's own functions: naming is C21's subject, not this property's)
+    _names: Dict[Tuple[str, str], str] = {}
+
     @staticmethod
     def prop_name(name: str) -> str:
-        from aas_core_codegen.common import Identifier
-        from aas_core_codegen.python import naming as N
+        r = Sdk._names.get(("p", name))
+        if r is None:
+            from aas_core_codegen.common import Identifier
+            from aas_core_codegen.python import naming as N
 
-        return str(N.property_name(Identifier(name)))
+            r = Sdk._names[("p", name)] = str(N.property_name(Identifier(name)))
+        return r
 
     @staticmethod
     def method_name(name: str) -> str:
-        from aas_core_codegen.common import Identifier
-        from aas_core_codegen.python import naming as N
+        r = Sdk._names.get(("m", name))
+        if r is None:
+            from aas_core_codegen.common import Identifier
+            from aas_core_codegen.python import naming as N
 
-        return str(N.method_name(Identifier(name)))
+            r = Sdk._names[("m", name)] = str(N.method_name(Identifier(name)))
+        return r
 
     def enum_member(self, v: EnumVal) -> Any:
         from aas_core_codegen.common import Identifier
@@ -242,7 +260,7 @@ class Sdk:
         if isinstance(v, Inst):
             if v.obj is not None:
                 return v.obj  # shared object: the same instance at a second place
-            props = mm.all_props(self.mm, v.cls)
+            props = self.props(v.cls)
             kwargs = {self.prop_name(p.name): self.realise(x) for (p, _o), x in zip(props, v.fields)}
             v.obj = self.py_class[v.cls](**kwargs)
             return v.obj
@@ -260,7 +278,7 @@ class Sdk:
             return [self.abstract(x) for x in o]
         if type(o) in self.meta_of:
             name = self.meta_of[type(o)]
-            return Inst(name, [self.abstract(getattr(o, self.prop_name(p.name))) for p, _o in mm.all_props(self.mm, name)])
+            return Inst(name, [self.abstract(getattr(o, self.prop_name(p.name))) for p, _o in self.props(name)])
         for ename, k in self.py_enum.items():
             if isinstance(o, k):
                 e = self.mm.find(ename)
@@ -287,7 +305,9 @@ def python_mro(m: mm.MM, cls: str) -> List[str]:
 
 def observe_body(sdk: Sdk, cls: str, method: str) -> Any:
     """``[(python property name, node wire)]`` of the generated ``descend_once`` / ``descend`` of a concrete class."""
-    tree = ast.parse(sdk.code or "")
+    if sdk.tree is None:
+        sdk.tree = ast.parse(sdk.code or "")
+    tree = sdk.tree
     from aas_core_codegen.common import Identifier
     from aas_core_codegen.python import naming as N
 
@@ -376,6 +396,15 @@ def run_list(fn: Any) -> Any:
 
 def make_recorders(sdk: Sdk) -> Dict[str, Any]:
     """Recording subclasses of the four abstract visitors/transformers: every method logs its own name."""
+    if sdk.recorders is not None:
+        for _rec, log in sdk.recorders.values():
+            del log[:]
+        return sdk.recorders
+    sdk.recorders = _make_recorders(sdk)
+    return sdk.recorders
+
+
+def _make_recorders(sdk: Sdk) -> Dict[str, Any]:
     mod = sdk.module
     concrete = [c.name for c in sdk.mm.classes if not c.abstract]
 
@@ -434,7 +463,7 @@ def _flatten(sdk: Sdk, v: Any) -> Iterator[Any]:
 
 def oracle_children(sdk: Sdk, o: Any) -> List[Any]:
     out: List[Any] = []
-    for p, _owner in mm.all_props(sdk.mm, sdk.meta_of[type(o)]):
+    for p, _owner in sdk.props(sdk.meta_of[type(o)]):
         out += list(_flatten(sdk, getattr(o, sdk.prop_name(p.name))))
     return out
 
@@ -501,7 +530,7 @@ def judge(sdk: Sdk, root: Inst, inp: Dict[str, Any], ctx: Ctx) -> None:
                 ctx.fail(inp, f"{cls}.{kind}() called {[x[0] for x in log]} -> {res!r}; expected exactly {want_name}",
                          f"C29:dispatch:{kind}")
         # --- accessors
-        for p, _owner in mm.all_props(sdk.mm, cls):
+        for p, _owner in sdk.props(cls):
             v = getattr(o, sdk.prop_name(p.name))
             acc = f"over_{sdk.prop_name(p.name)}_or_empty"
             if isinstance(p.type, mm.OptionalOf) and isinstance(p.type.item, mm.ListOf):
@@ -568,7 +597,14 @@ def _names(sdk: Sdk, xs: Any) -> Any:
 
 def correspond_tree(sdk: Sdk, mmw: str, root: Inst, inp: Dict[str, Any], ctx: Ctx, batch: List[Any]) -> None:
     """Queue the model requests for one instance tree together with what the real module did."""
-    for a in W.walk_insts(root):
+    insts = W.walk_insts(root)
+    used = {a.cls for a in insts}
+    for c in list(used):
+        used |= set(mm.ancestors(sdk.mm, c))
+    full = mmw
+    mmw = W.enc_mm(sdk.mm, only=used)  # the traversal only looks up the classes of the instances (and their MRO)
+    batch.append(("conforms", f"conforms {full} {W.val_wire(root)}", "1", inp))
+    for a in insts:
         o = a.obj
         w = W.val_wire(a)
         cls = a.cls
@@ -582,6 +618,7 @@ def correspond_tree(sdk: Sdk, mmw: str, root: Inst, inp: Dict[str, Any], ctx: Ct
         mro = enc_list(python_mro(sdk.mm, cls))
         for kind in KINDS:
             rec, log = recs[kind]
+            del log[:]
             res = call_dispatch(kind, o, rec, None)
             called = ["+".join(x[0] for x in log)] if len(log) != 1 else [log[0][0]]
             stem = "visit" if kind.startswith("accept") else "transform"
@@ -590,7 +627,7 @@ def correspond_tree(sdk: Sdk, mmw: str, root: Inst, inp: Dict[str, Any], ctx: Ct
                     f"{stem}_{c.name}" + ("_with_context" if kind.endswith("with_context") else "") for c in sdk.mm.classes}
             impl = enc_text(meta.get(called[0], "?" + called[0])) if not isinstance(res, str) or not res.startswith("crash:") else res
             batch.append(("dispatch", f"dispatch {kind} {mmw} {enc_text(cls)} {mro}", impl, inp))
-        for (p, _owner), v in zip(mm.all_props(sdk.mm, cls), a.fields):
+        for (p, _owner), v in zip(sdk.props(cls), a.fields):
             acc = f"over_{sdk.prop_name(p.name)}_or_empty"
             if hasattr(o, acc):
                 got = run_list(getattr(o, acc))
@@ -602,7 +639,7 @@ def correspond_tree(sdk: Sdk, mmw: str, root: Inst, inp: Dict[str, Any], ctx: Ct
         for c in [cls] + mm.ancestors(sdk.mm, cls):
             for me in sdk.mm.cls(c).methods:
                 pname = me.name[: -len("_or_default")]
-                idx = [p.name for p, _ in mm.all_props(sdk.mm, cls)].index(pname)
+                idx = [p.name for p, _ in sdk.props(cls)].index(pname)
                 d = sdk.defaults[f"{c}.{me.name}"]
                 try:
                     got = W.val_wire(sdk.abstract(getattr(o, sdk.method_name(me.name))()))
@@ -618,7 +655,7 @@ def correspond_bodies(sdk: Sdk, inp: Dict[str, Any], ctx: Ctx, batch: List[Any])
     for c in sdk.mm.classes:
         if c.abstract:
             continue
-        props = mm.all_props(sdk.mm, c.name)
+        props = sdk.props(c.name)
         for method, flag in (("descend_once", "0"), ("descend", "1")):
             got = observe_body(sdk, c.name, method)
             if isinstance(got, str):
